@@ -507,6 +507,22 @@ def case_stats1d(col, p):
                     col.violation('C13:%s:value' % nm, dict(kind='stats1d', n=n, freqs=freqs), {'got': g, 'exp': e})
             if not (fs.mask[0] and fs.mask[-1] and not fs.mask[1:-1].any()):
                 col.violation('C13:S:mask_not_restored', dict(kind='stats1d', n=n, freqs=freqs), '')
+            # the same spectrum with its corners unmasked and occupied (monomorphic sites kept, as from_data_dict(mask_corners=False) gives):
+            # the statistics see only segregating sites and leave the spectrum exactly as it was
+            d2 = data.copy()
+            d2[0], d2[n] = 2.0, 1.0
+            fs2 = dadi.Spectrum(d2, mask_corners=False)
+            for nm, e in zip(names, exp):
+                if e is None:
+                    continue
+                g = float(getattr(fs2, nm)())
+                col.tick(transitions=1)
+                if not abs(g - e) <= 1e-12 * max(1.0, abs(e)):
+                    col.violation('C13:%s:value' % nm, dict(kind='stats1d', n=n, freqs=freqs, corners='unmasked'), {'got': g, 'exp': e})
+                if np.ma.getmaskarray(fs2).any() or not np.array_equal(np.asarray(fs2.data), d2):
+                    col.violation('C13:%s:spectrum_modified' % nm, dict(kind='stats1d', n=n, freqs=freqs, corners='unmasked'),
+                                  {'mask': np.ma.getmaskarray(fs2).astype(int)})
+                    break
     col.tick(states=cnt, traces=cnt)
     col.distinct('nontrivial', ('stats1d', n))
 
